@@ -19,6 +19,7 @@ void vp_note(long long x);              /* observable, compared engine vs native
 int  vp_param(int k);                   /* concrete instance parameter chosen by the driver */
 int  vp_concretize(int x);              /* forks: returns a concrete value on every path */
 int  vp_symbolic_run(void);             /* 1 under E-SYM, 0 natively */
+void vp_sched_fair(int on);             /* thread model: voluntary yields (sleep, select time-outs) hand over round-robin instead of branching */
 void vp_sched_budget(int k);            /* thread model: number of preemptive context switches explored (no-op natively) */
 #ifdef __cplusplus
 }
